@@ -15,7 +15,7 @@ def run(ctx):
     cases = [json.loads(x) for x in open(gen_file)]
     n_gen = len(cases)
     for i in range(400 if quick else 6000):
-        cases.append(gen_problem.gen_problem(rng, 100000 + i))
+        cases.append(gen_problem.gen_problem(rng, 100000 + i, alt_types=i % 4 == 3))
     tf = ctx.drive("problem", cases, hashseeds=(0, 1, 2) if quick else tuple(range(16)))
     ctx.validate(tf, {c["id"]: c for c in cases}, driver="problem")
     acc = rej = 0
@@ -35,6 +35,8 @@ def run(ctx):
     ctx.rule = (f"G: all {n_gen} problems of spec/ProblemFamily.tla (3 base problems x 3 object-list styles and every single-point "
                 "corruption: wrong type / arity +-1 / undeclared symbol or object in facts, fluents, goal literals, goal "
                 "fluents; other domain; unknown object type); V: random problems over a 3-level typed domain with constants, "
-                "random number formats and layouts, about half of them with one random corruption. TLC decides "
+                "random number formats and layouts, about half of them with one random corruption, one in eight parsed over a "
+                "domain with the same type names arranged in a different tree (each worker process parses hundreds of "
+                "problems over several trees, in sequence). TLC decides "
                 "well-formedness (Syntax!WFProblem) and content. distinct_nontrivial = distinct problem texts")
     ctx.assumptions += ["assert-based type checks of the library are observed under the default interpreter (no -O)"]
